@@ -166,7 +166,13 @@ type mirrorCtx struct {
 }
 
 func (m *mirrorCtx) bad(prop, sig, format string, args ...any) {
-	m.viols = append(m.viols, Violation{Props: []string{prop}, Oracle: "mirror", Sig: sig, Detail: fmt.Sprintf(format, args...)})
+	props := []string{prop}
+	if prop == "C03" && (strings.Contains(sig, ":people.") || strings.Contains(sig, ":staff.") || strings.Contains(sig, ":px.")) {
+		// every entity of people is also an entity of its extended child store (and many are staff): "parent-store
+		// indexes and constraints apply identically to child entities" (C15) is the same claim seen from the child side
+		props = append(props, "C15")
+	}
+	m.viols = append(m.viols, Violation{Props: props, Oracle: "mirror", Sig: sig, Detail: fmt.Sprintf(format, args...)})
 }
 
 // checkUnique compares a unique index bucket with value->holder computed from stored entities.
@@ -450,7 +456,7 @@ func Mirror(tx *bbolt.Tx, s *Stores) []Violation {
 	}
 	m.checkUnique("depts.name", []string{rootBucket, boltz.IndexesBucket, StDepts, "name"}, holders(StDepts, depts, "name"), func(v []byte) []byte { return s.Depts.idxName.Read(tx, v) })
 	m.checkUnique("people.name", []string{rootBucket, boltz.IndexesBucket, StPeople, "name"}, holders(StPeople, people, "name"), func(v []byte) []byte { return s.People.idxName.Read(tx, v) })
-	m.checkUnique("people.nick", []string{rootBucket, boltz.IndexesBucket, StPeople, "nick"}, holders(StPeople, people, "nick"), func(v []byte) []byte { return s.People.idxNick.Read(tx, v) })
+	m.checkUnique("people.nick", []string{rootBucket, boltz.IndexesBucket, StPeople, "alias"}, holders(StPeople, people, "nick"), func(v []byte) []byte { return s.People.idxNick.Read(tx, v) })
 	m.checkUnique("px.memo", []string{rootBucket, boltz.IndexesBucket, StPeople, "memo"}, holders(StPeople, people, "memo", StPX), func(v []byte) []byte { return s.PX.idxMemo.Read(tx, v) })
 	m.checkUnique("staff.badgeNo", []string{rootBucket, boltz.IndexesBucket, StPeople, "badgeNo"}, holders(StPeople, people, "badgeNo", StStaff), func(v []byte) []byte { return s.Staff.idxBadgeNo.Read(tx, v) })
 	roleHolders := map[string][]string{}
